@@ -16,7 +16,7 @@ from typing import Any, Dict, List, Optional, Tuple
 from sa import astq, intervals
 from sa.consteval import Folder
 from sa.defuse import Inliner
-from sa.flow import FlowMap, facts
+from sa.flow import FlowMap, Guard, facts
 from sa.model import AnalysisError, FuncInfo, norm
 from sa.report import VERIF
 
@@ -193,6 +193,33 @@ def _contact_skips(chk, fi, fm, loop) -> None:
             f"the contact loop has no `{k}` skip: " + {"same-type": "donor-donor / acceptor-acceptor contacts would count", "same-label": "contacts inside one residue would count", "same-auth": "contacts inside one residue would count", "no-normal": "angles would be taken from a missing normal"}[k],
             K(fi, f"skip:{k}"),
         )
+    # same-residue skips compare the whole identity: a skip on part of (chain, number, icode) merges different residues
+    ident = []
+    for st in list(other):
+        eqs = set()
+        for g in facts([Guard(st.test, True, "if", st)]):
+            t = g.test
+            if isinstance(t, ast.Compare) and len(t.ops) == 1 and isinstance(t.ops[0], ast.Eq) and isinstance(t.left, ast.Attribute) and isinstance(t.comparators[0], ast.Attribute) and t.left.attr == t.comparators[0].attr:
+                a, b = norm(t.left.value).split("."), norm(t.comparators[0].value).split(".")
+                if {a[0][-2:], b[0][-2:]} == {"_i", "_j"} and a[0][:-2] == b[0][:-2] and a[1:] == b[1:]:
+                    eqs.add(t.left.attr)
+        if eqs and eqs <= {"chain", "number", "icode", "model", "name"}:
+            ident.append((st, eqs))
+            other.remove(st)
+    for st, eqs in ident:
+        missing = {"chain", "number", "icode"} - eqs
+        chk.expect(
+            not missing,
+            "same-residue-identity",
+            fi.site(st),
+            "the same-residue skip compares chain, number and insertion code",
+            f"the same-residue skip compares only {sorted(eqs)}: two different residues that share them (insertion codes {'' if 'icode' in missing else 'aside'}, label vs author numbering) are treated as one and every contact between them is dropped",
+            K(fi, "same-residue-partial"),
+            expected=["chain", "number", "icode"],
+            found=sorted(eqs),
+        )
+    if ident and not (found["same-label"] or found["same-auth"]):
+        found["same-label"] = found["same-auth"] = [ident[0][0]]
     for st in other:
         chk.violation("contact-extra-filter", fi.site(st), f"additional filter `if {norm(st.test)[:70]}: continue` in the contact loop: justified contacts are dropped (completeness)", K(fi, f"extra-skip:{norm(st.test)[:60]}"))
     chk.ok("contact-extra-filter", fi.site(loop), f"{sum(len(v) for v in found.values())} classified skips + {len(branches)} interaction branches, nothing else leaves the loop body early")
@@ -696,7 +723,7 @@ def check_base_normal(chk) -> None:
 # rules whose violations are evaluated facts about the current code (folded constants, accept regions, path enumeration, tables)
 ROBUST = {
     "table-pinned", "table-closure", "lw-total", "contact-radius", "contact-source", "angle-window", "cis-trans", "select-min-contacts",
-    "edge-exclusive", "select-extra-filter", "select-class", "label-orientation", "cis-trans-atoms",
+    "edge-exclusive", "select-extra-filter", "select-class", "label-orientation", "cis-trans-atoms", "same-residue-identity",
 }
 
 
